@@ -18,6 +18,7 @@ type Obligation struct {
 	prefix int
 	guard  *Term
 	goal   *Term
+	unsliced bool
 	Cover  bool
 	Pos    token.Position
 	Note   string
@@ -33,6 +34,11 @@ type Obligation struct {
 // VC accumulates declarations, assumptions and obligations for one function under contract.
 type VC struct {
 	eng       *Engine
+	tparams   map[string]types.Type
+	defAt     map[int]string
+	wmSyms    map[string]bool
+	sliceIx   *sliceIndex
+	noSlice   bool
 	fnName    string
 	sortDecls []string
 	sortSeen  map[string]string
@@ -131,6 +137,7 @@ func (vc *VC) name(prefix, sort string, t *Term) *Term {
 	}
 	c := vc.fresh(prefix, sort)
 	c.def = t
+	vc.markDef(c.op)
 	vc.lines = append(vc.lines, "(assert (= "+c.String()+" "+t.String()+"))")
 	return c
 }
@@ -437,8 +444,22 @@ func (vc *VC) comp(s *State, key, sort string) *Term {
 	return t
 }
 
+// markWM records that t denotes an allocation watermark (the slicer treats facts that only order
+// watermarks as always relevant and never lets a watermark alone pull in a fact about something else).
+func (vc *VC) markWM(t *Term) {
+	if vc.wmSyms == nil {
+		vc.wmSyms = map[string]bool{}
+	}
+	if len(t.args) == 0 {
+		vc.wmSyms[t.op] = true
+	}
+}
+
 func (vc *VC) setComp(s *State, key, sort string, t *Term) {
 	vc.compSort[key] = sort
+	if key == "wm" {
+		vc.markWM(t)
+	}
 	s.st[key] = t
 }
 
@@ -449,7 +470,11 @@ func (vc *VC) heapKey(t types.Type) (string, string) {
 		// Go memory safety: every reference stored in the entry heap was allocated before entry
 		h0 := quoteSym(key + "@0")
 		var body string
-		switch t.Underlying().(type) {
+		var tu types.Type = t.Underlying()
+		if _, isTP := types.Unalias(t).(*types.TypeParam); isTP {
+			tu = nil
+		}
+		switch tu.(type) {
 		case *types.Pointer, *types.Map, *types.Chan, *types.Signature:
 			body = fmt.Sprintf("(=> (<= (base ca) |wm@0|) (<= (base (select %s ca)) |wm@0|))", h0)
 		case *types.Slice:
@@ -482,6 +507,7 @@ func (vc *VC) alloc(s *State, hint string) *Term {
 	a := vc.fresh("a."+hint, "Int")
 	a.allocID = vc.allocN
 	a.def = nil
+	vc.markDef(a.op)
 	vc.lines = append(vc.lines, fmt.Sprintf("(assert (and (= %s (+ %s 1)) (> %s 0) (= (tagof %s) 0) (= (base %s) %s)))", a, wm, a, a, a, a))
 	vc.setComp(s, "wm", "Int", a)
 	return a
@@ -527,6 +553,9 @@ func (vc *VC) storeVal(s *State, t types.Type, addr, v *Term) {
 // allocated before (base <= watermark); lengths are non-negative.
 func (vc *VC) ptrFacts(s *State, t types.Type, v *Term, depth int) *Term {
 	wm := vc.wm(s)
+	if _, isTP := types.Unalias(t).(*types.TypeParam); isTP {
+		return tTrue // values of a type parameter are opaque
+	}
 	switch u := t.Underlying().(type) {
 	case *types.Pointer, *types.Map, *types.Chan, *types.Signature:
 		return app("<=", app("base", v), wm)
@@ -599,6 +628,9 @@ func (vc *VC) mergeStates(in []*State) *State {
 			m = mkIte(in[i].guard, vals[i], m)
 		}
 		out.st[k] = vc.name("m", srt, m)
+		if k == "wm" {
+			vc.markWM(out.st[k])
+		}
 	}
 	return out
 }
@@ -615,9 +647,20 @@ func (vc *VC) havoc(s *State, key string) *Term {
 }
 
 // render produces the SMT-LIB text of one obligation.
+// markDef records that the next line defines the fresh constant nm (used by the slicer).
+func (vc *VC) markDef(nm string) {
+	if vc.defAt == nil {
+		vc.defAt = map[int]string{}
+	}
+	vc.defAt[len(vc.lines)] = nm
+}
+
 func (vc *VC) render(o *Obligation, logic string) string {
 	if vc.rawPrelude != "" {
 		return "; obligation " + o.Name + "\n" + vc.rawPrelude + "(assert (not " + o.goal.String() + "))\n(check-sat)\n"
+	}
+	if sliceEnabled() && !vc.noSlice && !o.Cover && !o.unsliced {
+		return vc.renderSliced(o, logic)
 	}
 	var b strings.Builder
 	b.WriteString("; obligation " + o.Name + "\n")
